@@ -149,6 +149,17 @@ def type_exprs(tier):
     for x in ops_[:4]:
         out += [["Opaque", "z.unknown", "Tz", C, [["SeqA", [["SeqA", [["TA", x]]], ["SeqA", []]]]]],
                 ["Opaque", "z.unknown", "Tz", C, [["SeqA", [["SeqA", [["SeqA", [["TA", x], ["NA", 2]]]]]]]]]]
+    # function types with several runtime requirements (ascending, descending, unsorted): resolution must hand the list back as it was
+    for x in ops_[:3]:
+        for rq in (["a", "b"], ["b", "a"], ["m.n", "z9", "a"], ["z", "y", "x", "w"], ["a.b", "c", "prelude", "x.ext", "q", "k"]):
+            out.append(["G", [x], [BOOL], rq])
+        out.append(["Tuple", [["G", [x], [x], ["r2", "r1", "r3"]]]])
+    # sums in general form whose rows are all empty (not the unit-sum spelling), alone and next to an opaque type
+    for rows in ([[]], [[], []], [[], [], []], []):
+        out.append(["Sum", rows])
+        out.append(["G", [["Sum", rows]], [ops_[0]], []])
+        out.append(["Tuple", [["Sum", rows], ops_[1]]])
+        out.append(["Opaque", "x.ext", "Tb", C, [["TA", ["Sum", rows]]]])
     # two opaque leaves side by side: each resolves (or stays opaque) independently of its sibling
     for x in ops_[:4]:
         for y in ops_[:4]:
